@@ -2,6 +2,7 @@ import Kopf.Drv.Json
 import Kopf.Model.C06_Finalizer
 import Kopf.Model.C06_Registry
 import Kopf.Model.C06_Invoke
+import Kopf.Model.C06_Slots
 open Lean
 namespace Kopf.Drv.C06
 open Kopf.C06
@@ -144,6 +145,31 @@ def optNat? : Json → Option (Option Nat)
   | .null => some none
   | j => (jNat? j).map some
 
+/-! ### the per-handler-id record of daemon invocations: `sstep` (the code: `reuse = false`) over a label list -/
+
+def slabelOf? (j : Json) : Option SLabel := do
+  match ← jArr? j with
+  | [.str "spawn"] => some .spawn
+  | [.str "tell"] => some .tell
+  | [.str "abandon"] => some .abandon
+  | [.str "exit", n] => some (.exit (← jNat? n))
+  | _ => none
+
+/-- What the harness reads off the real `memory.running_daemons` and the real tasks/stoppers: the invocation recorded under
+the id, the invocations alive (serial, told to stop, abandoned), and whether `stop_daemons` would report no delay. -/
+def slotsJson (s : Slots) : Json :=
+  Json.mkObj [("slot", match s.slot with | none => .null | some k => .num (JsonNumber.fromNat k)),
+              ("live", .arr (s.live.map (fun i => Json.arr #[.num (JsonNumber.fromNat i.n), .bool i.told, .bool i.abandoned])).toArray),
+              ("noDelay", .bool s.noDelay)]
+
+/-- The state after each label; a label that is unreadable or not enabled ends the list with a marker. -/
+def sreplay : Slots → List Json → List Json
+  | _, [] => []
+  | s, j :: rest =>
+    match (slabelOf? j).bind (sstep false s) with
+    | none => [Json.mkObj [("disabled", j)]]
+    | some s' => slotsJson s' :: sreplay s' rest
+
 def handle : DrvHandler := fun op args =>
   match op, args with
   | "C06.block", [f, l] => do
@@ -201,6 +227,9 @@ def handle : DrvHandler := fun op args =>
   -- stop_daemons for one daemon: [done, backoff|null, timeout|null, age, polling] → is a delay reported?
   | "C06.stop", [d, b, t, a, p] => do
       some (ok (.bool (stopDelay (← jBool? d) (← optNat? b) (← optNat? t) (← jNat? a) (← jNat? p)).isSome))
+  -- the slots of one handler id in one memory: [labels] → the abstract state after each label
+  | "C06.slots", [labels] => do
+      some (ok (.arr (sreplay {} (← jArr? labels)).toArray))
   | _, _ => none
 
 end Kopf.Drv.C06
